@@ -49,8 +49,11 @@ class DBusProperty:
             instance._dbusProperties = {}
 
         if self.interface is None:
-            # Force object to set it
-            instance._getProperty('', self.pname)
+            # Force object to set it: bind the properties of every class
+            # (a search by name stops at a more derived class that has a
+            # property of the same name and would leave this one unbound)
+            for _ in instance._iterIFaceCaches():
+                pass
 
         if self.key is None:
             self.key = (self.interface, self.pname)
@@ -63,8 +66,9 @@ class DBusProperty:
             instance._dbusProperties = {}
 
         if self.iprop is None:
-            # Force object to set it
-            instance._getProperty('', self.pname)
+            # Force object to set it (see __get__)
+            for _ in instance._iterIFaceCaches():
+                pass
 
         if self.key is None:
             self.key = (self.interface, self.pname)
